@@ -9,6 +9,7 @@ package props
 // placement (Location.RunJavascript, rule condition, rule action).
 
 import (
+	"encoding/base64"
 	"fmt"
 	"strings"
 	"testing"
@@ -24,6 +25,9 @@ import (
 type c14Case struct {
 	Family    string  `json:"family"`    // value | throw | syntax | loop | slow | recursion
 	Variant   int     `json:"variant"`   // which template
+	// Encoding (action placement): the action's opts.encoding: absent,
+	// "none", "empty" (the empty string) or "base64".
+	Encoding string `json:"encoding,omitempty"`
 	Placement string  `json:"placement"` // run | action | condition
 	Source    string  `json:"source"`    // control | default | off
 	LimitMs   int     `json:"limitMs"`
@@ -35,6 +39,7 @@ func genC14(t *rapid.T) c14Case {
 	var c c14Case
 	c.Family = rapid.SampledFrom([]string{"value", "value", "throw", "syntax", "loop", "loop", "slow", "recursion", "cyclic", "chain"}).Draw(t, "family")
 	c.Variant = rapid.IntRange(0, 5).Draw(t, "variant")
+	c.Encoding = rapid.SampledFrom([]string{"", "", "none", "empty", "base64"}).Draw(t, "encoding")
 	c.Placement = rapid.SampledFrom([]string{"run", "action", "condition", "condition-not"}).Draw(t, "placement")
 	c.Source = rapid.SampledFrom([]string{"control", "control", "default", "off", "locoff"}).Draw(t, "source")
 	if c.Family == "loop" && (c.Source == "off" || c.Source == "locoff") {
@@ -244,7 +249,16 @@ func runC14(c c14Case) *vlib.Outcome {
 			res.value, res.err = loc.RunJavascript(ctx, code, nil, &bs, nil)
 			res.complete = res.err == nil
 		case "action":
-			rule := M{"when": M{"pattern": M{"x": "?x", "s": "?s"}}, "action": M{"code": code}}
+			action := M{"code": code}
+			switch c.Encoding {
+			case "none":
+				action["opts"] = M{"encoding": "none"}
+			case "empty":
+				action["opts"] = M{"encoding": ""}
+			case "base64":
+				action = M{"code": base64.StdEncoding.EncodeToString([]byte(code)), "opts": M{"encoding": "base64"}}
+			}
+			rule := M{"when": M{"pattern": M{"x": "?x", "s": "?s"}}, "action": action}
 			if _, err := loc.AddRule(newCtx(), "r", core.Map(rule)); err != nil {
 				res.err = fmt.Errorf("AddRule: %v", err)
 				return
